@@ -102,6 +102,10 @@ def run(ctx):
             abort_true = depth_cmp + [n for n in body_nodes if n.kind == "guard" and (
                 (n.outcome is True and isinstance(n.cond, ast.Call) and norm(n.cond.func).endswith("_abort_at_level")) or
                 (isinstance(n.cond, ast.Name) and n.cond.id in abort_flags))]
+            # `x is None`: a placeholder in a duck-typed children sequence, not a node - nothing is owed to it
+            from .common import none_test
+            stop_true = stop_true + [n for n in body_nodes if n.kind == "guard" and none_test(n.cond) is not None and none_test(n.cond)[0] == x
+                                     and (none_test(n.cond)[1] is True) == (n.outcome is True)]
             filter_tests = [n for n in body_nodes if n.kind == "test" and is_call_on_x(n.cond, ("filter_",))]
             yields_x = [n for n in body_nodes if n.kind == "stmt" and isinstance(n.ast, ast.Expr) and isinstance(n.ast.value, ast.Yield)
                         and isinstance(n.ast.value.value, ast.Name) and n.ast.value.value.id == x]
